@@ -211,6 +211,15 @@ def d_c09_contains_decode():
     assert c == ('a,b', 'c'), c
 
 
+def d_c09_values_hex_case():
+    import soupsieve as sv
+    a = sv.compile(r':lang(\C9 t)').selectors[0].lang[0].languages
+    b = sv.compile(r':lang(\c9 t)').selectors[0].lang[0].languages
+    assert a == b == ('\xc9t',), (a, b)
+    c = sv.compile(r':-soup-contains(\C9 t)').selectors[0].contains[0].text
+    assert c == ('\xc9t',), c
+
+
 def d_c09_custom_key_case():
     import soupsieve as sv
     s = soup('<h1 id="a">x</h1>')
